@@ -38,11 +38,11 @@ prop("C02", [RO.rule_EF1, RO.rule_OR2_responder, RO.rule_CR, RO.rule_OR2_gatekee
      "owner removal precedes Watcher/Responder and cascades in the DB, foreign keys switched on in the production constructor (OR1, OR2g, SQ1). "
      "NOT decided: that exactly the disconnected block's entries are purged (container contents, C19).",
      technique="who-may-call + interprocedural origin tracing + SQL schema tables")
-prop("C03", [RO.rule_OR3, LK.rule_CBS, SQ.rule_SQ3, SQ.rule_SQ1, LK.rule_AT2, RO.rule_OR2_gatekeeper],
+prop("C03", [RO.rule_OR3, LK.rule_CBS, RO.rule_OR2_watcher, SQ.rule_SQ3, SQ.rule_SQ1, LK.rule_AT2, RO.rule_OR2_gatekeeper],
      STATIC + "Decided (ordering of durable effects, what crash-safety rests on): last-known-block written by one function only on Ok(Better(tip)) of the poll that delivered the blocks; "
      "bootstrap poll before any API is spawned; tower key regenerated only if --overwritekey or none stored (OR3); slots charged (successfully) before the store (CBS); "
      "multi-statement writes are one committed sqlite transaction (SQ3); cascades on (SQ1); one critical section and one DB delete per balance update (AT2); "
-     "memory purge always followed by the DB purge (OR2g). NOT decided: enumeration of crash points, replay equivalence, partial-progress semantics of the SPV client.",
+     "memory purge always followed by the DB purge (OR2g); block processing is re-runnable in the sense that, on a replayed block, only undecryptable or node-rejected breaches are dropped (OR2w: any other verdict, e.g. already-in-chain, keeps the appointment and its tracker). NOT decided: enumeration of crash points, replay equivalence, partial-progress semantics of the SPV client.",
      technique="must-precede / must-follow path analysis on MIR + SQL statement tables")
 prop("C04", [RO.rule_OR2_responder, RO.rule_CR, RO.rule_EF2, RO.rule_EF3, SQ.rule_SQ4, RO.rule_TX],
      STATIC + "Decided: Responder connect/disconnect pipelines complete on all paths; reorg handler gated by coming_from_reorg and re-announces dispute then penalty of the stored tracker; "
@@ -55,11 +55,11 @@ prop("C05", [PL.rule_PL1, PL.rule_PL3, PL.rule_PL7, PN.rule_PN_plugin],
      "only mutators write, pending work is re-queued at start-up and on idle wake-up, loaders agree (PL7); no tower reply or repeated notification reaches an unwrap (PNp). "
      "NOT decided: SIGKILL durability, exactly-one-of accounting across towers over a history.",
      technique="reply-class enumeration by CFG reachability + classified-unwrap table + SQL insert classification")
-prop("C06", [RT.rule_AU1],
+prop("C06", [RT.rule_AU1, RO.rule_OR2_watcher],
      STATIC + "Decided for add_appointment / get_appointment / get_subscription_info: nothing that takes a lock (reads or writes tower state) is reachable before authenticate_user succeeded and "
      "has_subscription_expired was found false; the expired path is effect-free; every user id flowing into UUID::new / ExtendedAppointment::new / add_update_appointment / get_user_info / "
      "has_subscription_expired is the Ok payload of authenticate_user; the signed message is the request-specific one and its template equals what the client signs; "
-     "authenticate_user returns Ok only for a recovered key that is a registered user. NOT decided: cryptographic claims, isolation over multi-user histories.",
+     "authenticate_user returns Ok only for a recovered key that is a registered user; appointments of different users under one locator are handled independently per block (OR2w: every (locator, uuid) pair is visited, a failure of one never ends the loop). NOT decided: cryptographic claims, isolation over multi-user histories.",
      technique="branch-fact dataflow + origin tracing (identity provenance) + literal cross-check")
 prop("C07", [RT.rule_SL, LK.rule_AT2, RO.rule_EF2, RO.rule_EF3, SQ.rule_SQ3],
      STATIC + "Decided: the only subtraction of slots is guarded by `required - used <= available` and equals available - (slots(new) - slots(stored for this uuid)); renewal uses checked_add; "
